@@ -57,6 +57,12 @@ pub enum CelValue {
     )]
     Duration(Duration),
     ByteCode(CelByteCode),
+    // Error values are now encapsulated.
+    //
+    // Every serializable variant has to come before the skipped ones: formats
+    // that identify a variant by its index (bincode) write the index among all
+    // variants but read it among the non-skipped ones.
+    Err(CelError),
     #[cfg(feature = "protobuf")]
     #[serde(skip_serializing, skip_deserializing)]
     Message(Box<dyn MessageDyn>),
@@ -68,8 +74,6 @@ pub enum CelValue {
     },
     #[serde(skip_serializing, skip_deserializing)]
     Dyn(Arc<dyn CelValueDyn>),
-    // Error values are now encapsulated.
-    Err(CelError),
 }
 
 impl CelValue {
